@@ -148,7 +148,7 @@ Proof. reflexivity. Qed.
 (** a step whose result is neither dead nor panicked ran a dispatcher function that returned [Done] *)
 Lemma disp_Done e a e' o :
   WF e -> step_opt e a = Some e' -> dead e' = None -> disp_outcome e a = Some o ->
-  exists m' effs e1, o = Done m' effs /\ e' = finish e1 o /\ mx e' = m' /\ mx e1 = mx e /\ alloc e1 = alloc e /\
+  exists m' effs e1, o = Done m' effs /\ e' = finish e1 o /\ mx e' = m' /\ mx e1 = disp_mux e a /\ alloc e1 = alloc e /\
                      connects e1 = connects e.
 Proof.
   intros Hw H Hd Ho. pose proof (WF_step _ _ _ Hw H) as Hw'.
@@ -161,14 +161,15 @@ Qed.
 
 Lemma disp_free e a m' effs p c :
   disp_outcome e a = Some (Done m' effs) -> lookup p (ports (mx e)) = Some (Connected c) ->
-  is_connected (lookup p (ports m')) = false -> freed_by (mx e) m' effs p c.
+  is_connected (lookup p (ports m')) = false -> freed_by (disp_mux e a) m' effs p c.
 Proof.
-  intros Ho Hl Hn. destruct a; cbn [disp_outcome] in Ho; try discriminate.
+  intros Ho Hl Hn. rewrite <- (proj1 (disp_mux_same e a)) in Hl.
+  destruct a; cbn [disp_outcome] in Ho; try discriminate; try (cbn [disp_mux] in * ).
   - destruct (chq e) as [|ev q]; [discriminate|]. injection Ho as Ho. eapply he_free; eauto.
   - destruct (cq e) as [|ev q]; [discriminate|]. injection Ho as Ho. eapply he_free; eauto.
   - assert (Ho' : handle_event (mx e) EListenerDropped = Done m' effs) by congruence. eapply he_free; eauto.
   - assert (Ho' : handle_event (mx e) EGoodbye = Done m' effs) by congruence. eapply he_free; eauto.
-  - assert (Ho' : handle_received (mx e) m paylen = Done m' effs) by congruence. eapply hr_free; eauto.
+  - injection Ho as Ho'. eapply hr_free; eauto.
 Qed.
 
 Theorem free_iff e a e' p c :
@@ -176,7 +177,7 @@ Theorem free_iff e a e' p c :
   match lookup p (ports (mx e')) with
   | Some (Connected c') => all4 c' = false /\ In p (alloc e')
   | _ => ~ In p (alloc e') /\
-         exists effs, disp_outcome e a = Some (Done (mx e') effs) /\ freed_by (mx e) (mx e') effs p c
+         exists effs, disp_outcome e a = Some (Done (mx e') effs) /\ freed_by (disp_mux e a) (mx e') effs p c
   end.
 Proof.
   intros Hw H Hd Hl. pose proof (WF_step _ _ _ Hw H) as Hw'.
@@ -251,7 +252,7 @@ Proof.
   - inj Ho. apply he_respond in Hin as (p & id & w & Hx & _). discriminate.
   - inj Ho. apply he_respond in Hin as (p & id & w & Hx & _). discriminate.
   - inj Ho. apply hr_respond in Hin as [(p & np & _ & Hl & _)|(p & q & _ & Hl & _)];
-      pose proof (port_reqs_connecting _ _ _ Hkeys Hl); lia.
+      rewrite (proj1 (disp_mux_same e _)) in Hl; pose proof (port_reqs_connecting _ _ _ Hkeys Hl); lia.
 Qed.
 
 (** a resolved reply cell is never written again *)
@@ -300,7 +301,8 @@ Proof.
     cbn [cause]. right. repeat split; auto. eauto.
   - inj Ho. apply he_respond in Hin as (p & id & w & Hx & _). discriminate.
   - inj Ho. apply he_respond in Hin as (p & id & w & Hx & _). discriminate.
-  - inj Ho. apply hr_respond in Hin as [(p & np & -> & Hl & ->)|(p & q & -> & Hl & -> & Hd)].
+  - inj Ho. apply hr_respond in Hin as [(p & np & Em & Hl & ->)|(p & q & Em & Hl & -> & Hd)];
+      rewrite (proj1 (disp_mux_same e _)) in Hl; subst m.
     + cbn [cause]. left. eauto.
     + cbn [cause]. exists paylen. repeat split; auto. rewrite (Hmx _ _ Hd). prj. rewrite lookup_insert, N.eqb_refl.
       eexists. split; reflexivity.
